@@ -308,3 +308,93 @@ def corpus_full():
             if len(b) <= 200:
                 out.add(b)
     return sorted(out)
+
+
+def limit_corpus(eng):
+    """native base case for C09/C08: the real parser under limits around the sizes involved (harness/limit_corpus.c)"""
+    from engine import Unit
+    u = Unit("default", ["vk_parse_limited"])
+    obj = eng.native_obj(u)
+    cpath = os.path.join(eng.work, "corpus_full.bin")
+    if not os.path.exists(cpath):
+        with open(cpath, "wb") as f:
+            for b in corpus_full():
+                f.write(struct.pack("<I", len(b)))
+                f.write(b)
+    exe = os.path.join(eng.work, "limit_corpus.exe")
+    o = os.path.join(eng.work, "limit_corpus.o")
+    r = subprocess.run([GCC, "-O1", "-w", "-c", os.path.join(VERIF, "harness", "limit_corpus.c"), "-o", o], capture_output=True, text=True)
+    if r.returncode != 0:
+        return {"error": "gcc: " + r.stderr[-400:]}
+    r = subprocess.run([CLANGXX, "-no-pie", o, obj, "-o", exe, "-lpthread"], capture_output=True, text=True)
+    if r.returncode != 0:
+        return {"error": "link: " + r.stderr[-400:]}
+    r = subprocess.run([exe, cpath], capture_output=True, text=True, errors="replace", timeout=900)
+    m = re.search(r"LIMITCORPUS runs=(\d+) bad=(\d+)", r.stdout)
+    if not m:
+        return {"error": f"rc={r.returncode} " + (r.stdout + r.stderr)[-300:]}
+    return {"parsed": int(m.group(1)), "bad": int(m.group(2)), "fails": [x[:300] for x in re.findall(r"LIMIT-FAIL.*", r.stdout)[:8]]}
+
+
+def diff_corpus(eng, mask):
+    """native whole-parse differential base case (harness/diff_corpus.c); mask = disagreement bits that count"""
+    from engine import Unit
+    u = Unit("default", ["vk_diff_parse"])
+    obj = eng.native_obj(u)
+    cpath = os.path.join(eng.work, "corpus_full.bin")
+    if not os.path.exists(cpath):
+        with open(cpath, "wb") as f:
+            for b in corpus_full():
+                f.write(struct.pack("<I", len(b)))
+                f.write(b)
+    exe = os.path.join(eng.work, "diff_corpus.exe")
+    o = os.path.join(eng.work, "diff_corpus.o")
+    r = subprocess.run([GCC, "-O1", "-w", "-c", os.path.join(VERIF, "harness", "diff_corpus.c"), "-o", o], capture_output=True, text=True)
+    if r.returncode != 0:
+        return {"error": "gcc: " + r.stderr[-400:]}
+    r = subprocess.run([CLANGXX, "-no-pie", o, obj, "-o", exe, "-lpthread"], capture_output=True, text=True)
+    if r.returncode != 0:
+        return {"error": "link: " + r.stderr[-400:]}
+    r = subprocess.run([exe, cpath, str(mask)], capture_output=True, text=True, errors="replace", timeout=900)
+    m = re.search(r"DIFFCORPUS runs=(\d+) bad=(\d+)", r.stdout)
+    if not m:
+        return {"error": f"rc={r.returncode} " + (r.stdout + r.stderr)[-300:]}
+    return {"parsed": int(m.group(1)), "bad": int(m.group(2)), "fails": [x[:300] for x in re.findall(r"DIFF-FAIL.*", r.stdout)[:8]]}
+
+
+def wpt_vectors(eng):
+    """native base case for C01: expectations of tests/wpt/urltestdata.json (harness/wpt_vectors.cpp)"""
+    d = json.load(open(os.path.join(REPO, "tests/wpt/urltestdata.json"), encoding="utf-8"))
+
+    def cstr(x):
+        b = x.encode("utf-8", "surrogatepass")
+        return '"' + "".join('\\x%02x""' % c if (c < 32 or c > 126 or c in (34, 92, 63)) else chr(c) for c in b) + '"', len(b)
+    rows = []
+    for t in d:
+        if not isinstance(t, dict):
+            continue
+        try:
+            i, il = cstr(t["input"])
+            base = t.get("base")
+            b, bl = cstr(base) if base is not None else ('""', 0)
+            if t.get("failure"):
+                rows.append(f'{{{i},{il},{b},{bl},{1 if base is not None else 0},1,"",0}}')
+            else:
+                h, hl = cstr(t["href"])
+                rows.append(f'{{{i},{il},{b},{bl},{1 if base is not None else 0},0,{h},{hl}}}')
+        except Exception:  # noqa
+            pass
+    wd = os.path.join(eng.work, "wptvec")
+    os.makedirs(wd, exist_ok=True)
+    open(os.path.join(wd, "vec.h"), "w").write("struct V{const char*i;int il;const char*b;int bl;int hasb;int fail;const char*h;int hl;};\nstatic V vecs[]={\n" + ",\n".join(rows) + "\n};\n")
+    exe = os.path.join(wd, "wptvec.exe")
+    r = subprocess.run([CLANGXX, "-std=c++20", "-O1", "-w", "-I" + wd, "-I" + os.path.join(REPO, "include"), "-I" + os.path.join(REPO, "src"),
+                        os.path.join(VERIF, "harness", "wpt_vectors.cpp"), os.path.join(REPO, "src", "ada.cpp"), "-o", exe], capture_output=True, text=True)
+    if r.returncode != 0:
+        return {"error": "build: " + r.stderr[-400:]}
+    r = subprocess.run([exe], capture_output=True, text=True, errors="replace", timeout=600)
+    bad = sum(int(x) for x in re.findall(r"WPTVEC \w+ bad=(\d+)", r.stdout))
+    if "WPTVEC" not in r.stdout:
+        return {"error": f"rc={r.returncode} " + (r.stdout + r.stderr)[-300:]}
+    fails = [x[:300] for x in r.stdout.splitlines() if "MISMATCH" in x or " HREF " in x][:8]
+    return {"parsed": 2 * len(rows), "bad": bad, "fails": fails}
